@@ -33,6 +33,7 @@ template <typename OpType = DenseGenComplexShiftSolve<double>>
 class GenEigsComplexShiftSolver : public GenEigsBase<OpType, IdentityBOp>
 {
 private:
+    SPECTRA_VERIF_FRIEND
     using Scalar = typename OpType::Scalar;
     using Index = Eigen::Index;
     using Complex = std::complex<Scalar>;
@@ -80,6 +81,7 @@ private:
         const Scalar shiftr = rng.random() * m_sigmar + rng.random();
         const Complex shift = Complex(shiftr, Scalar(0));
         m_op.set_shift(shiftr, Scalar(0));
+        SPECTRA_VERIF_EVENT("ProbeShift", this, 0);
 
         // Calculate inv(A - r * I) * vj
         Vector v_real(m_n), v_imag(m_n), OPv_real(m_n), OPv_imag(m_n);
@@ -90,6 +92,7 @@ private:
             v_imag.noalias() = m_fac.matrix_V() * m_ritz_vec.col(i).imag();
             m_op.perform_op(v_real.data(), OPv_real.data());
             m_op.perform_op(v_imag.data(), OPv_imag.data());
+            SPECTRA_VERIF_EVENT("ProbeSolve", this, (long long) i);
 
             // Two roots computed from the quadratic equation
             const Complex nu = m_ritz_val[i];
@@ -115,14 +118,17 @@ private:
             if (abs(Eigen::numext::imag(lambdaj)) > eps)
             {
                 m_ritz_val[i + 1] = Eigen::numext::conj(lambdaj);
+                SPECTRA_VERIF_EVENT("PairFixup", this, (long long) i, 1);
                 i++;
             }
             else
             {
                 m_ritz_val[i] = Complex(Eigen::numext::real(lambdaj), Scalar(0));
+                SPECTRA_VERIF_EVENT("PairFixup", this, (long long) i, 0);
             }
         }
 
+        SPECTRA_VERIF_EVENT("BackDone", this, 0);
         Base::sort_ritzpair(sort_rule);
     }
 
